@@ -214,8 +214,21 @@ fn map_form(op: &Value) -> bool {
 pub fn exec(obj: &Obj, loc: &mut Locals, op: &Value) -> Value {
     let k = op["k"].as_str().unwrap();
     // amounts are JSON numbers; the non-finite ones (and -0) travel as strings ("+Inf", "-Inf", "NaN", "-0")
-    let v = op.get("v").map(|x| if x.is_string() { crate::pm::fparse(x) } else { x.as_f64().unwrap_or(0.0) }).unwrap_or(0.0);
-    let vi = op.get("v").and_then(|x| x.as_i64()).unwrap_or(0);
+    let v = op.get("v").map(|x| match x.as_str() {
+        Some("MIN") => i64::MIN as f64,
+        Some("MAX") => i64::MAX as f64,
+        Some("-MAX") => -(i64::MAX as f64),
+        Some(_) => crate::pm::fparse(x),
+        None => x.as_f64().unwrap_or(0.0),
+    }).unwrap_or(0.0);
+    // integer amounts; the extreme ones travel as names ("MIN" = i64::MIN, "MAX" = i64::MAX, "-MAX")
+    let vi = match op.get("v") {
+        Some(Value::String(x)) if x == "MIN" => i64::MIN,
+        Some(Value::String(x)) if x == "MAX" => i64::MAX,
+        Some(Value::String(x)) if x == "-MAX" => -i64::MAX,
+        Some(x) => x.as_i64().unwrap_or(0),
+        None => 0,
+    };
     let vs: Vec<f64> = op.get("vs").and_then(|x| x.as_array()).map(|a| a.iter().map(|x| if x.is_string() { crate::pm::fparse(x) } else { x.as_f64().unwrap() }).collect()).unwrap_or_default();
     let t = xf();
     match obj {
